@@ -1,4 +1,4 @@
-\* export: 68000 class, every program <= 4 items
+\* (M)+(G) 68000 class, repaired algorithm, every program <= 4 items: check and export
 CONSTANTS
   VarMode = "rel8"
   VarShort = 2
@@ -7,16 +7,17 @@ CONSTANTS
   RelFpuOK = TRUE
   Labels = {"la", "lb"}
   MaxItems = 4
-  Fills = {1, 2, 126}
-  AbsWidths = {2, 4}
+  Fills = {1, 126}
+  AbsWidths = {4}
   EquOffs = {1}
   Orgs = {0}
   Fixed = TRUE
   ThrowErrors = FALSE
-  WithExtra = FALSE
+  WithExtra = TRUE
   AllowIllFormed = FALSE
   Complete = FALSE
-INIT GInit
-NEXT GNext
+SPECIFICATION GSpec
 CHECK_DEADLOCK FALSE
+INVARIANTS TypeOK Fixpoint ExtraPassIsStutter NoSpuriousError CleanMeansSolvable IllFormedRejected
+PROPERTY Termination
 ACTION_CONSTRAINT OnDone
